@@ -22,6 +22,12 @@ func execNumber(context *exprContext, expr *grammar.Grammar) error {
 	numStr := expr.GetString()
 	numResult, err := strconv.ParseFloat(numStr, 64)
 
+	// A literal too large for a double is an infinity (IEEE 754 round to
+	// nearest), not an error.
+	if numErr, ok := err.(*strconv.NumError); ok && numErr.Err == strconv.ErrRange {
+		err = nil
+	}
+
 	context.result = Number(numResult)
 	return err
 }
